@@ -93,16 +93,25 @@ def choose_builds(ctx, n_extra, want):
 
 CRASH_CAP = 60
 SKIPPED = "skipped-after-crash-cap"
+# Non-termination: the driver re-arms a watchdog before every library call (WD_CPU seconds of CPU time, 6 x that of wall clock;
+# expiry = FAULT sig=14).  A sanitizer death costs milliseconds, a watchdog death costs WD_CPU seconds, so those have a budget of
+# their own for the WHOLE check: once HANG_BUDGET calls have been killed by the watchdog (each one is reported), every further
+# batch is cut at its first one.  A check must end with a verdict in bounded time.
+WD_CPU = 60; HANG_BUDGET = 24
+_hangs = [0]; _hang_lock = threading.Lock()
+def set_tier(ctx):
+    global WD_CPU, HANG_BUDGET
+    WD_CPU, HANG_BUDGET = (20, 4) if ctx.quick else (60, 24)
 def run_lines(b, lines, timeout=900, cap=CRASH_CAP):
     """common.batch_run with a cap on dead driver processes: a tree in which every call dies must end in a verdict (the
     crashes already recorded), not in an infrastructure failure.  Lines behind the cap get a result whose kind is SKIPPED
     (Fails.add ignores those)."""
     res = [None] * len(lines)
-    i = 0; crashes = 0
+    i = 0; crashes = 0; hang_cut = False
     e = {"ASAN_OPTIONS": "detect_leaks=0:abort_on_error=0:detect_stack_use_after_return=1:allocator_may_return_null=1",
-         "UBSAN_OPTIONS": "print_stacktrace=1:halt_on_error=1"}
+         "UBSAN_OPTIONS": "print_stacktrace=1:halt_on_error=1", "ECDSA_DRV_WD_CPU": str(WD_CPU)}
     while i < len(lines):
-        if crashes >= cap:
+        if crashes >= cap or hang_cut:
             for j in range(i, len(lines)): res[j] = {"crash": (SKIPPED, "", "", ""), "raw": ""}
             break
         data = ("\n".join(lines[i:]) + "\n").encode()
@@ -124,6 +133,9 @@ def run_lines(b, lines, timeout=900, cap=CRASH_CAP):
         key = common.san_key(out) or (("timeout", "", "", "driver timeout") if rc == 124 else ("exit-%s" % rc, "", "", out[-300:]))
         res[i + k] = {"crash": key, "raw": out[-2500:]}
         i = i + k + 1; crashes += 1
+        if key[0] in ("fault-sig14", "timeout"):
+            with _hang_lock:
+                _hangs[0] += 1; hang_cut = _hangs[0] > HANG_BUDGET
     return res
 
 # ------------------------------------------------------------------ TLC partitions
